@@ -418,6 +418,7 @@ Proof.
   unfold do_walk, fail. destruct (forallb safe_nameb names) eqn:Hs; cbn [negb]; [|apply pres_ret; exact I].
   destruct names as [|n rest].
   - eapply pres_bind; [apply pres_the_ref|intros fr _].
+    destruct (fr_xof fr); [apply pres_ret; exact I|].
     eapply pres_bind; [apply pres_walk_one; reflexivity|intros r _].
     destruct r as [e|[[q h] a]]; [apply pres_ret; exact I|].
     eapply pres_bind; [apply pres_new_ref|intros nr _].
